@@ -8,6 +8,8 @@ import (
 	"unicode"
 	"unicode/utf8"
 
+	"github.com/charlievieth/strcase/verifhooks"
+
 	"verif/harness/internal/gen"
 	"verif/harness/internal/impl"
 )
@@ -23,7 +25,7 @@ var (
 	fnByte    = []string{"IndexByte", "LastIndexByte", "IndexByteASCII"}
 	fnOne     = []string{"IndexNonASCII", "ContainsNonASCII"}
 	fnAll2    = concat(fnSearch, fnLast, fnAffix, fnCmp, fnCount, fnAny)
-	fnHookIdx = []string{"indexRabinKarpUnicode", "hasPrefixUnicode"}
+	fnHookIdx = []string{"indexRabinKarpUnicode", "hasPrefixUnicode", "bruteForceIndexUnicode"}
 	fnHookLst = []string{"indexRabinKarpRevUnicode", "hasSuffixUnicode"}
 )
 
@@ -83,6 +85,36 @@ func (p *planner) pairFamilies(fns []string, n int) {
 	g.Random(n*3, func(pr gen.Pair) { p.pair(fns, pr) })
 	p.fam = "long-needle"
 	g.LongNeedle(n, func(pr gen.Pair) { p.pair(fns, pr) })
+	// runs of one letter in random case, needle = a shorter run + what follows: overlapping candidates
+	// (the "skip two runes" steps of the brute-force search, the skip loop's fails counter)
+	p.fam = "letter-runs"
+	for i := 0; i < n/2; i++ {
+		letters := []string{"a", "A", "é", "É", "Ⱥ", "ⱥ", "k", "K", "K", "s", "ſ", "ß", "ẞ", "σ", "ς", "Σ", "z", "я", "𐐀", "𐐨", "1"}
+		L := letters[g.R.Intn(len(letters))]
+		o := gen.Orbit([]rune(L)[0])
+		run := func(m int) []byte {
+			var b []byte
+			for ; m > 0; m-- {
+				b = append(b, string(o[g.R.Intn(len(o))])...)
+			}
+			return b
+		}
+		m := 1 + g.R.Intn(6)
+		k := 1 + g.R.Intn(m)
+		tail := g.Str(g.R.Intn(2))
+		if g.R.Intn(2) == 0 {
+			tail = append([]byte("b"), tail...)
+		}
+		s := append(append(g.Pad([]int{0, 0, 1, 2, 5, 9, 12, 13, 14, 15, 16, 17, 30}[g.R.Intn(13)], g.R.Intn(2), nil), run(m)...), tail...)
+		if g.R.Intn(3) == 0 {
+			s = append(s, g.Pad(g.R.Intn(6), 0, nil)...)
+		}
+		t := append(run(k), tail...)
+		if g.Valid && (!utf8.Valid(s) || !utf8.Valid(t)) {
+			continue
+		}
+		p.pair(fns, gen.Pair{S: s, T: t})
+	}
 	p.fam = "small-exhaustive"
 	stride := 40 / g.Scale
 	if stride < 1 {
@@ -181,6 +213,66 @@ func (p *planner) oneFamilies(fns []string, n int) {
 	}
 }
 
+// rkCollisions: haystacks containing a window whose rolling hash equals the needle's although the
+// window is not a match, placed before/after a real match or alone.
+func (p *planner) rkCollisions(fns []string, n int) {
+	g := p.g
+	p.fam = "rk-collisions"
+	caseless := func(r rune) bool { return len(gen.Orbit(r)) == 1 }
+	cols := gen.Collisions(16777619, caseless, 40)
+	for i := 0; i < n && len(cols) > 0; i++ {
+		c := cols[g.R.Intn(len(cols))]
+		a, b := string(c[0][:]), string(c[1][:])
+		if i%2 == 1 {
+			// the reverse search hashes the window from its last rune: swap the runes
+			a, b = string([]rune{c[0][1], c[0][0]}), string([]rune{c[1][1], c[1][0]})
+		}
+		if g.R.Intn(2) == 0 {
+			a, b = b, a
+		}
+		pad := func() []byte { return g.Pad(gen.PadLens[g.R.Intn(14)], g.R.Intn(2), nil) }
+		var s []byte
+		switch g.R.Intn(4) {
+		case 0: // decoy only
+			s = append(append(pad(), b...), pad()...)
+		case 1: // real match, then decoy to the right
+			s = append(append(append(append(pad(), a...), pad()...), b...), pad()...)
+		case 2: // decoy, then real match
+			s = append(append(append(append(pad(), b...), pad()...), a...), pad()...)
+		default: // decoy at the very start / end
+			s = append(append([]byte(b), pad()...), b...)
+		}
+		if g.Valid && !utf8.Valid(s) {
+			continue
+		}
+		p.pair(fns, gen.Pair{S: s, T: []byte(a)})
+	}
+}
+
+// dotlessFamilies: İ ı i I in the first / second needle position, haystacks on both sides of the
+// brute-force thresholds (C03: U+0130/U+0131 are equal only to themselves).
+func (p *planner) dotlessFamilies(fns []string, n int) {
+	g := p.g
+	p.fam = "dotted-dotless-i"
+	is := []string{"İ", "ı", "i", "I"}
+	for i := 0; i < n; i++ {
+		x, y := is[g.R.Intn(4)], is[g.R.Intn(4)]
+		pre := []string{"", "x", "é", "世"}[g.R.Intn(4)]
+		post := []string{"", "y", "ß", "K"}[g.R.Intn(4)]
+		needle := pre + x + post
+		hay := pre + y + post
+		if g.R.Intn(3) == 0 {
+			needle += strings.Repeat("z", g.R.Intn(40))
+			hay += needle[len(pre+x+post):]
+		}
+		s := append(g.Pad(gen.PadLens[g.R.Intn(len(gen.PadLens))], g.R.Intn(2), nil), hay...)
+		if g.R.Intn(2) == 0 {
+			s = append(s, g.Pad(g.R.Intn(20), 0, nil)...)
+		}
+		p.pair(fns, gen.Pair{S: s, T: []byte(needle)})
+	}
+}
+
 func plan(prop string, seed int64, scale int) []op {
 	sfx := impl.CfgSuffix()
 	n := 1500 * scale
@@ -191,6 +283,8 @@ func plan(prop string, seed int64, scale int) []op {
 	case "C01":
 		p := mk(true)
 		p.pairFamilies(concat(fnSearch, fnHookIdx), n)
+		p.rkCollisions(concat(fnSearch, fnHookIdx), n/4)
+		p.dotlessFamilies(fnSearch, n/3)
 		return p.ops
 	case "C02":
 		p := mk(false)
@@ -219,6 +313,7 @@ func plan(prop string, seed int64, scale int) []op {
 		p := mk(true)
 		p.pairFamilies(concat(fnLast, fnSearch, fnHookLst), n)
 		p.runeFamilies([]string{"lastIndexRune"}, n/2)
+		p.rkCollisions(concat(fnLast, fnHookLst), n/4)
 		return p.ops
 	case "C09":
 		p := mk(true)
@@ -293,6 +388,17 @@ func plan(prop string, seed int64, scale int) []op {
 			var s []byte
 			for j := g.R.Intn(8); j > 0; j-- {
 				s = append(s, []string{"x", "K", "ſ", "k", "S", "s", "K", "a", "A", "z", "1"}[g.R.Intn(11)]...)
+			}
+			p.pair(fnCount, gen.Pair{S: s, T: []byte{c}})
+			// any ASCII byte against itself, its other case and its 0x20-neighbours (the byte kernel's
+			// letter test: '@' '[' '`' '{' must not be folded), on both sides of the SIMD thresholds
+			c = byte(g.R.Intn(128))
+			if g.R.Intn(2) == 0 {
+				c = "@[`{AZaz\x40\x5b\x60\x7b"[g.R.Intn(12)]
+			}
+			s = g.Pad([]int{0, 3, 15, 16, 17, 33, 64, 70}[g.R.Intn(8)], 0, nil)
+			for j := g.R.Intn(6); j > 0; j-- {
+				s = append(s, []byte{c, c ^ 0x20, c | 0x20, c &^ 0x20, 'x'}[g.R.Intn(5)])
 			}
 			p.pair(fnCount, gen.Pair{S: s, T: []byte{c}})
 		}
@@ -469,6 +575,28 @@ func plan(prop string, seed int64, scale int) []op {
 				gen.OpsRune(fnRune, p.sfx, []byte("x"+string(o[len(o)-1])), a, p.emit)
 			}
 		}
+		// every code point whose CaseFold differs from itself, against its fold, with the standard
+		// library (the toolchain's unicode tables) as the oracle: a spurious or edited entry is a
+		// concrete (a, b) on which strcase.EqualFold and strings.EqualFold disagree
+		p.fam = "fold-table-sweep"
+		p.std = true
+		for r := rune(0); r <= unicode.MaxRune; r++ {
+			if f := verifhooks.CaseFold(r); f != r && utf8.ValidRune(r) && utf8.ValidRune(f) {
+				p.pair([]string{"EqualFold"}, gen.Pair{S: []byte(string(r)), T: []byte(string(f))})
+			}
+			if fm := verifhooks.FoldMap(r); fm != nil {
+				for _, m := range fm {
+					if m != 0 && utf8.ValidRune(r) {
+						p.pair([]string{"EqualFold"}, gen.Pair{S: []byte(string(r)), T: []byte(string(rune(m)))})
+					}
+				}
+			}
+			if u, l, ok := verifhooks.ToUpperLower(r); ok && utf8.ValidRune(r) && r != 0x130 && r != 0x131 {
+				p.pair([]string{"EqualFold"}, gen.Pair{S: []byte(string(u)), T: []byte(string(l))})
+			}
+		}
+		p.std = false
+		p.dotlessFamilies(concat(fnSearch, fnLast, []string{"HasPrefix", "Count"}), n/2)
 		p.fam = "random-code-points"
 		for i := 0; i < n*4; i++ {
 			a, b := p.g.RandRune(), p.g.RandRune()
